@@ -43,7 +43,7 @@ def build(repo):
     b = translate(body, [
         Rule("R1", "Self :: $v", "Import :: $v", why="Self"),
         Rule("R2", "$v . iter ( ) . map ( | $x | $$body ) . collect ( )", chain, why="iter().map(closure).collect(): the loop that evaluates the closure body for each item in order"),
-        Rule("R6", "Dependency :: new ( Cow :: Borrowed ( $i ) )", "dep_new ( $i )", why="Dependency::new: the dependency that stands for this declaration"),
+        Rule("R6", "Dependency :: new ( Cow :: Borrowed ( $$i ) )", "dep_new ( $$i )", why="Dependency::new: the dependency that stands for this declaration"),
         R12_VEC_LITERAL, R12_VEC_EMPTY,
     ], log, "Import::supplies")
     check_closed(b, "Import::supplies")
